@@ -1,9 +1,10 @@
 (* C14 (partial) - cost is polynomial.  Proved on the model: the sizes of every intermediate structure are linear
-   in the text, and the evaluator's work (matcher calls + node visits) is at most |text| * |allowed| + |text|;
+   in the text, the parser makes at most 3|text|+3 calls, and the evaluator's work (matcher calls + node visits)
+   is at most |text| * |allowed| + |text|;
    the leaf walk of ExtractLicenses visits every node once.  The allocator, regexp compilation and the table
    scans inside one matcher call (a constant given the shipped tables) are measured on the code, not proved. *)
 From Coq Require Import Lia.
-From Spdx Require Import Props.Shipped Model.Ticks Spec.Lex Proofs.ScanRef Proofs.Cost Proofs.ParseGrammar.
+From Spdx Require Import Props.Shipped Model.Ticks Spec.Lex Proofs.ScanRef Proofs.Cost Proofs.ParseGrammar Proofs.ParseCost.
 Local Open Scope list_scope.
 
 Theorem C14_sizes e t : parse T0 e = Ok t -> tree_size t <= length e /\ leaf_count t <= length e.
@@ -28,6 +29,16 @@ Proof.
   intros H. split; [apply leaves_t_erasure|]. rewrite leaves_t_cost. apply (C14_sizes e t H).
 Qed.
 
+(* the recursive-descent parser makes at most 3 calls per token plus 3 (no backtracking, no re-parsing), and a text
+   has at most as many tokens as bytes *)
+Theorem C14_parser_linear e ts : ref_tokens T0 e = Ok ts ->
+  fst (p_expr_t (3 * length ts + 3) ts) = p_expr (3 * length ts + 3) ts /\
+  snd (p_expr_t (3 * length ts + 3) ts) <= 3 * length e + 3.
+Proof.
+  intros H. destruct (parser_calls_linear ts) as [E K]. split; [assumption|].
+  pose proof (tokens_le_bytes T0 HT0 e ts H). lia.
+Qed.
+
 (* the loops that are not structurally recursive run within their fuel: |text|+1 scanner iterations,
    recursion depth 3*|tokens|+3 in the parser (C03_scanner, C03_parser) *)
 
@@ -37,5 +48,5 @@ Example C14_example :
                       [NLic (s2l "Apache-2.0") false None]) = 4.
 Proof. vm_compute. reflexivity. Qed.
 
-Definition C14_theorems := (@C14_sizes, @C14_evaluator_linear, @C14_leaf_walk_linear).
+Definition C14_theorems := (@C14_sizes, @C14_evaluator_linear, @C14_leaf_walk_linear, @C14_parser_linear).
 Redirect "assumptions/C14" Print Assumptions C14_theorems.
